@@ -115,6 +115,43 @@ def _effective_edges(repo) -> dict[str, dict[str, tuple | None]]:
     return eff_edges
 
 
+_OWN_CACHE: dict[int, dict] = {}
+
+
+def _effective_owners(repo) -> dict[str, tuple]:
+    """ALLOWED_PRIMITIVE_OWNERS plus their private pieces: a private function of the same module
+    whose *every* caller is an owner (or such a piece) may hold the kinds all its callers may
+    hold.  Extracting the write loop of the task body into `_write_result` moves the site, not
+    the set of callers that can reach storage."""
+    if id(repo) in _OWN_CACHE:
+        return _OWN_CACHE[id(repo)]
+    owners: dict[str, tuple] = dict(ALLOWED_PRIMITIVE_OWNERS)
+    callers: dict[str, set[str | None]] = {}
+    for d, c, ts in repo.all_call_sites():
+        for t in ts:
+            if t.kind == "def" and t.ref.is_func:
+                # a call made from a nested function / lambda counts for the enclosing function
+                anc = d
+                while anc is not None and anc.parent is not None and anc.parent.is_func:
+                    anc = anc.parent
+                callers.setdefault(t.ref.qual, set()).add(anc.qual if anc is not None else None)
+    changed = True
+    while changed:
+        changed = False
+        for q, cs in callers.items():
+            h = repo.defs.get(q)
+            if h is None or not h.name.startswith("_") or h.name.startswith("__") or q in owners:
+                continue
+            if None in cs or not all(c in owners and repo.defs.get(c) is not None and repo.defs[c].module is h.module for c in cs):
+                continue
+            kinds = set.intersection(*[set(owners[c]) for c in cs])
+            if kinds:
+                owners[q] = tuple(sorted(kinds))
+                changed = True
+    _OWN_CACHE[id(repo)] = owners
+    return owners
+
+
 def _below_boundary(d: Def) -> bool:
     """Executors and code that only runs inside tasks are below the laziness boundary."""
     q = d.module.qual
@@ -157,6 +194,10 @@ def lazy_entry(ctx: Ctx) -> None:
         n_edges += 1
         allowed = _effective_edges(repo).get(d.qual, {})
         sel = f"edge:{callee.qual}"
+        own = _effective_owners(repo)
+        if callee.qual not in allowed and callee.qual in own and callee.qual not in ALLOWED_PRIMITIVE_OWNERS and d.qual in own and all(e.kind in own[d.qual] for e in hv):
+            ctx.ob(d, n, True, f"{callee.name} is a private piece of the primitive owner {d.name}", sel=sel, props=["C16", "C04"])
+            continue
         if callee.qual not in allowed:
             ctx.ob(
                 d,
@@ -209,7 +250,7 @@ def lazy_entry(ctx: Ctx) -> None:
                 # (a lambda / nested function of an allowed owner is part of that owner)
                 anc, ok = d, False
                 while anc is not None and not ok:
-                    ok = e.kind in ALLOWED_PRIMITIVE_OWNERS.get(anc.qual, ())
+                    ok = e.kind in _effective_owners(repo).get(anc.qual, ())
                     anc = anc.parent if anc.parent is not None and anc.parent.is_func else None
                 if e.kind == STORE_DELETE:
                     continue  # CLEANUP-1 (C10) owns deletion sites
